@@ -6,6 +6,9 @@ From SPV Require Import Base.Str Model.Leaf Model.LeafSpec Proofs.LeafProofs.
 Definition flt_wf (neg : bool) (ip : Z) (frac : string) : Prop :=
   (0 <= ip)%Z /\ allc is_digit frac = true /\ rstrip_zeros frac = frac /\ (neg = true -> ~ (ip = 0%Z /\ frac = "")).
 
+Lemma has_char_app_local c a b : has_char c (a ++ b) = has_char c a || has_char c b.
+Proof. induction a as [|x r IH]; simpl; [reflexivity | rewrite IH; apply orb_assoc]. Qed.
+
 Lemma lower_noop s : allc (fun a => negb (is_upper a)) s = true -> lower s = s.
 Proof.
   induction s as [|a r IH]; simpl; [reflexivity|]. intros H. apply andb_true_iff in H as [Ha Hr].
@@ -105,4 +108,56 @@ Proof.
   rewrite (split_at_none _ _ "" He).
   rewrite (split_at_app "."%char I F "" (has_char_digits "."%char I (fun a H => proj2 (proj2 (proj2 (digit_props a H)))) DI)).
   reflexivity.
+Qed.
+
+Lemma rstrip_zeros_F frac : rstrip_zeros frac = frac -> rstrip_zeros (if String.eqb frac "" then "0" else frac) = frac.
+Proof. intros H. destruct (String.eqb frac "") eqn:E; [apply String.eqb_eq in E; subst; reflexivity | exact H]. Qed.
+
+Theorem py_float_show neg ip frac :
+  flt_wf neg ip frac -> py_float (show_float neg ip frac) = Some (VFlt neg ip frac).
+Proof.
+  intros W. assert (W' := W). destruct W' as [Hip [Hd [Hz Hneg]]].
+  set (I := show_int ip). set (F := if String.eqb frac "" then "0" else frac).
+  destruct (show_nonneg ip Hip) as [DI [NI [u [HU HUz]]]]. fold I in DI, NI, HU.
+  assert (DF : allc is_digit F = true) by (unfold F; destruct (String.eqb frac ""); [reflexivity | exact Hd]).
+  assert (NF : F <> "") by (unfold F; destruct (String.eqb frac "") eqn:E; [discriminate | apply String.eqb_neq in E; exact E]).
+  assert (Hbody := py_float_body neg ip frac W). cbv zeta in Hbody. fold I F in Hbody.
+  set (body := I ++ String "."%char F) in *.
+  assert (Dbody_sp : allc (fun a => negb (is_space a)) body = true).
+  { unfold body. rewrite allc_app. simpl.
+    rewrite (allc_digit_to _ I (fun a H => proj1 (digit_props a H)) DI), (allc_digit_to _ F (fun a H => proj1 (digit_props a H)) DF). reflexivity. }
+  assert (Dbody_up : allc (fun a => negb (is_upper a)) body = true).
+  { unfold body. rewrite allc_app. simpl.
+    rewrite (allc_digit_to _ I (fun a H => proj1 (proj2 (digit_props a H))) DI), (allc_digit_to _ F (fun a H => proj1 (proj2 (digit_props a H))) DF). reflexivity. }
+  assert (Hs : show_float neg ip frac = (if neg then "-" else "") ++ body).
+  { unfold show_float, body. fold I F. reflexivity. }
+  assert (Hnorm : lower (strip (show_float neg ip frac)) = (if neg then "-" else "") ++ body).
+  { rewrite Hs. destruct neg; simpl.
+    - rewrite strip_noop by (simpl; exact Dbody_sp). rewrite lower_noop by (simpl; exact Dbody_up). reflexivity.
+    - rewrite strip_noop by exact Dbody_sp. rewrite lower_noop by exact Dbody_up. reflexivity. }
+  unfold py_float. rewrite Hnorm.
+  match goal with |- (let (_, _) := ?M in _) = _ => assert (Hsign : M = (neg, body)) end.
+  { destruct neg; [reflexivity|]. simpl. unfold body. destruct I as [|a r] eqn:EI; [congruence|].
+    simpl in DI. apply andb_true_iff in DI as [Da _].
+    destruct a as [[] [] [] [] [] [] [] []]; simpl in Da; try discriminate Da; reflexivity. }
+  rewrite Hsign. cbv beta iota.
+  destruct (split_at_char "e"%char body "") as [[m e]|] eqn:Ee; [discriminate|].
+  destruct (split_at_char "."%char body "") as [[a b]|] eqn:Ed; [|discriminate].
+  injection Hbody as -> ->. cbv beta iota.
+  rewrite (digits_or_empty_digits I DI NI), (digits_or_empty_digits F DF NF).
+  assert (EI : String.eqb I "" = false) by (apply String.eqb_neq; exact NI).
+  rewrite EI. cbn [andb].
+  assert (LI := length_pos I NI). assert (LF := length_pos F NF).
+  replace (Z.of_nat (String.length I) + 0)%Z with (Z.of_nat (String.length I)) by lia.
+  destruct (Z.of_nat (String.length I) <=? 0)%Z eqn:P1; [apply Z.leb_le in P1; lia|].
+  destruct (Z.of_nat (String.length (I ++ F)) <=? Z.of_nat (String.length I))%Z eqn:P2;
+    [apply Z.leb_le in P2; rewrite length_append in P2; lia|].
+  rewrite Nat2Z.id. unfold take, drop. rewrite substring_take.
+  rewrite length_append. replace (String.length I + String.length F - String.length I) with (String.length F) by lia.
+  rewrite substring_drop. rewrite HU, HUz.
+  assert (RF : rstrip_zeros F = frac) by (unfold F; exact (rstrip_zeros_F frac Hz)).
+  rewrite RF.
+  f_equal. f_equal. destruct neg; [|reflexivity]. simpl.
+  destruct (ip =? 0)%Z eqn:Ez; [|reflexivity]. destruct (String.eqb frac "") eqn:Ef; [|reflexivity].
+  exfalso. apply (Hneg eq_refl). split; [now apply Z.eqb_eq | now apply String.eqb_eq].
 Qed.
